@@ -233,8 +233,19 @@ fn probe_answer(sh: &Shared, tid: usize, progress: bool, what: &str, kind: &str,
         } else {
             "value-or-end-available"
         };
+        let has_leaver = cfg
+            .streams
+            .iter()
+            .any(|s| s.iter().any(|c| matches!(c.0, StreamMode::PollDrop(_) | StreamMode::DirectDrop(_))));
         violation(
-            if what == "Err(SendError)" { "C14,C13" } else { "C14" },
+            if what == "Err(SendError)" {
+                "C14,C13"
+            } else if kind == "sink" && has_leaver {
+                // a receiver left during this scenario: a send refused only because of it must be retried
+                "C14,C11"
+            } else {
+                "C14"
+            },
             "parked-unnotified",
             format!("parked-unnotified:{}:{}", kind, ctx),
             format!(
